@@ -50,6 +50,7 @@ func init() {
 }
 
 func runC01(c *eng.Ctx, tier string) {
+	defer eng.SetRoot(nil)
 	d := loadDB(c)
 	if d == nil {
 		return
@@ -69,6 +70,7 @@ func runC01(c *eng.Ctx, tier string) {
 
 	// R-C01-1 guarded access
 	for _, m := range d.methods {
+		eng.SetRoot(m.Fn) // helpers shared by several operations are resolved at their call site in this one
 		sites := d.sites(m.Fn)
 		action, inTable := tC01[m.Name]
 		if !inTable {
@@ -147,6 +149,7 @@ func runC01(c *eng.Ctx, tier string) {
 	// R-C01-5 read-only operations write nothing
 	g := p.CallGraph()
 	for _, m := range d.methods {
+		eng.SetRoot(m.Fn) // helpers shared by several operations are resolved at their call site in this one
 		switch m.Name {
 		case "List", "Info", "Get", "GetConditional", "GetVersion", "Path", "WriteGen":
 		default:
@@ -393,7 +396,13 @@ func c01List(c *eng.Ctx, d *dbInfo) {
 	}
 	// every append to a []*api.SecretInfo that can reach a return
 	n := 0
-	eng.InstrsTree(m.Fn, func(f *ssa.Function, in ssa.Instruction) {
+	eng.SetRoot(m.Fn)
+	defer eng.SetRoot(nil)
+	// (the result may be built by a helper method List hands the permissions to)
+	eng.InstrsDeep(m.Fn, func(f *ssa.Function, in ssa.Instruction) {
+		if eng.FuncPkg(f) != eng.FuncPkg(m.Fn) || (f != m.Fn && eng.Outer(f) != m.Fn && !recvIs(eng.Outer(f), "db", "DB")) {
+			return
+		}
 		args, ok := eng.BuiltinCall(in, "append")
 		if !ok || len(args) != 2 {
 			return
